@@ -92,6 +92,8 @@ class Ctx:
         self.pre = []
         self.concrete_env = None
         self.concrete_trace = None
+        self.site_log = None  # optional list of (source site, value) of every evaluated branch condition
+        self.lemma_hook = None  # optional: (function name, relevant applications) -> extra lemma instances (recorded by the harness)
         self.concrete_funcs = getattr(self, "concrete_funcs", {})
         self.coverage = {}
         self.reset([])
@@ -136,6 +138,8 @@ class Ctx:
             rel = [(v, a) for v, a in apps if v.get_id() in done]
             for (v1, a1), (v2, a2) in itertools.combinations(rel, 2):
                 out.append(z3.Implies(z3.And(*[x == y for x, y in zip(a1, a2)]), v1 == v2))
+            if self.lemma_hook is not None:
+                out.extend(self.lemma_hook(name, rel))
         return out
 
     # ------------------------------------------------------------------ solving
@@ -304,6 +308,14 @@ class Ctx:
             self.concrete_trace.append(v)
             return v
         cond = z3.simplify(cond)
+        if self.site_log is not None:
+            # log every evaluated branch condition with its source site, also the syntactically decided ones
+            v = True if z3.is_true(cond) else (False if z3.is_false(cond) else None)
+            if v is None and cond.get_id() in self.cache:
+                v = self.cache[cond.get_id()]
+            if v is not None:
+                self.site_log.append((self._site(), v))
+                return v
         if z3.is_true(cond):
             return True
         if z3.is_false(cond):
@@ -330,6 +342,8 @@ class Ctx:
         site = self._site()
         if site:
             self.coverage.setdefault(site, set()).add(val)
+        if self.site_log is not None:
+            self.site_log.append((site, val))
         return val
 
     # ------------------------------------------------------------------ float evaluation
